@@ -10,6 +10,8 @@ from props import _nfamily
 from common import cerberus, real_error, canon_errors
 
 LEVEL = "proof"
+import vrun as _vrun_refs
+_vrun_refs.P_REFS = 0.15      # some generated schemas carry registry references (validator-bound registries)
 COQ_FILES = ["theories/Model/Normalize.v", "theories/Properties/C06.v"]
 FACT_GROUPS = ["F11", "F16"]
 ALLOWED_AXIOMS = []
